@@ -11,7 +11,7 @@ import itertools
 import z3
 
 from pyvc import sym, instrument, vc as vcm, loops
-from pyvc.arr import SymArray, SymList, SymListView
+from pyvc.arr import SymArray, check_same, SymList, SymListView
 from pyvc.models.npmodel import NP, BUILTINS
 from pyvc.sym import SB, SC, SI, SR, check, assume, explore, FreshReal, FreshInt, Undecided
 
@@ -129,8 +129,8 @@ def run_retry(mutate=None, adaptive=True):
 
         def stub(**kw):
             # contract of solve_for_psi_squared as seen by the caller: arguments forwarded unchanged, only dt varies
-            check("C12.retry.forwards_state_unchanged", z3.BoolVal(kw["psi"] is psi and kw["abs_sq_psi"] is absq and kw["mu"] is mu
-                                                                   and kw["epsilon"] is eps and kw["psi_laplacian"] is ops.psi_laplacian))
+            check_same("C12.retry.forwards_state_unchanged", [(kw["psi"], psi), (kw["abs_sq_psi"], absq), (kw["mu"], mu), (kw["epsilon"], eps),
+                                                               (kw["psi_laplacian"], ops.psi_laplacian)])
             check("C12.retry.forwards_gamma_u", z3.And(sym.eq(kw["gamma"], s.gamma), sym.eq(kw["u"], s.u)))
             G["ncalls"] = G["ncalls"] + 1
             G["last_dt"] = SR.lift(kw["dt"])
@@ -195,7 +195,8 @@ def run_retry(mutate=None, adaptive=True):
         r = spec.idx
         psi1, sq1, dt_out = out
         # never returns a refused result; returns the result of the answered attempt and the dt THAT attempt used
-        check("C12.retry_rule.result_is_answered_attempt", z3.BoolVal(G["last_result"] is not None and psi1 is G["last_result"][0] and sq1 is G["last_result"][1]))
+        check_same("C12.retry_rule.result_is_answered_attempt", [(psi1, G["last_result"][0]), (sq1, G["last_result"][1])] if G["last_result"] is not None else [],
+                   also=G["last_result"] is not None)
         check("C12.retry_rule.dt_is_dt_of_answered_attempt", SR.lift(dt_out).e == G["last_dt"].e)
         check("C12.retry_rule.dt_is_dt_in_times_multiplier_pow_refusals", z3.And(SR.lift(dt_out).e == (dt_in * SR(POW(r.e))).e, G["ncalls"].e == r.e + 1))
         check("C12.positive.dt_returned_positive", SR.lift(dt_out).e > 0)
@@ -324,7 +325,7 @@ def run_update(mutate=None, screening=False, dynamic=False, prefixes=("C",)):
             check("C10.solver_triggers.operators_hold_latest_potential", arr_eq_at(G["link"], want, g_e), extra=eq_instances(g_e))
             # C02.call_pre: abs_sq_psi == |psi|^2 at every site
             check("C02.call_pre.abs_sq_psi_is_modulus_of_psi", sym.eq(absq.at(*g_s), psi.at(*g_s).abs2()))
-            check("C02.call_pre.base_state_is_state_at_step_n", z3.BoolVal(psi is psi_in and mu is mu_in and eps is s.epsilon))
+            check_same("C02.call_pre.base_state_is_state_at_step_n", [(psi, psi_in), (mu, mu_in), (eps, s.epsilon)])
             check("C12.step.euler_called_with_step", sym.eq(step_, step))
             check("C12.step.dt_passed_positive", SR.lift(dt).e > 0)
             check("C11.update_ignores_observers.step_inputs", z3.BoolVal(not (sym._consts(SR.lift(dt).e) & {"save_every", "progress_interval"})))
@@ -343,7 +344,7 @@ def run_update(mutate=None, screening=False, dynamic=False, prefixes=("C",)):
             mb = [ev for ev in LOG if ev[0] == "mu_boundary"]
             if mb:
                 check("C01.step.mu_boundary_time_is_state_time", sym.eq(mb[0][1], time))
-            check("C01.step.observables_from_new_psi", z3.BoolVal(EUL["last"] is not None and psi is EUL["last"][0]))
+            check_same("C01.step.observables_from_new_psi", [(psi, EUL["last"][0])] if EUL["last"] is not None else [], also=EUL["last"] is not None)
             if dynamic:
                 want = ((A_now.at(g_e[0], SI(0)) - A_prev.at(g_e[0], SI(0))) / dt_prev) * s.normalized_directions.at(g_e[0], SI(0)) + \
                        ((A_now.at(g_e[0], SI(1)) - A_prev.at(g_e[0], SI(1))) / dt_prev) * s.normalized_directions.at(g_e[0], SI(1))
@@ -362,7 +363,7 @@ def run_update(mutate=None, screening=False, dynamic=False, prefixes=("C",)):
             IND["n"] += 1
             check("C13.loop.current_density_is_sum_of_last_currents",
                   sym.eq(cd.at(g_e[0]), OBS["last"][1].at(g_e[0]) + OBS["last"][2].at(g_e[0])))
-            check("C13.loop.polyak_history_starts_from_input_or_last", z3.BoolVal(vals[-1] is G_state["A_ind"]))
+            check_same("C13.loop.polyak_history_starts_from_input_or_last", [(vals[-1], G_state["A_ind"])])
             A_new = SymArray.fresh("A_induced_new", (E, 2))
             err = SR(FreshReal("screening_error"))
             c.pc.append(err.e >= 0)
@@ -443,8 +444,9 @@ def run_update(mutate=None, screening=False, dynamic=False, prefixes=("C",)):
         # ---------------- normal return
         check("C11.result_shape", z3.BoolVal((res[6] is not None) == dynamic and res[7] is None))
         dt_out, psi_out, mu_out, js_out, jn_out, A_out = res[:6]
-        check("C01.step.returns_last_observables", z3.BoolVal(OBS["last"] is not None and mu_out is OBS["last"][0] and js_out is OBS["last"][1] and jn_out is OBS["last"][2]))
-        check("C01.step.returns_psi_of_last_euler_step", z3.BoolVal(psi_out is EUL["last"][0]))
+        check_same("C01.step.returns_last_observables", [(mu_out, OBS["last"][0]), (js_out, OBS["last"][1]), (jn_out, OBS["last"][2])] if OBS["last"] is not None else [],
+                   also=OBS["last"] is not None)
+        check_same("C01.step.returns_psi_of_last_euler_step", [(psi_out, EUL["last"][0])])
         check("C01.step.mu_boundary_updated_exactly_once", z3.BoolVal(sum(1 for ev in LOG if ev[0] == "mu_boundary") == 1))
         check("C12.step.dt_returned_is_dt_used_by_last_euler_step", sym.eq(dt_out, EUL["dt"]))
         check("C12.positive_bounded.dt_in_0_dtmax", z3.And(SR.lift(dt_out).e > 0, SR.lift(dt_out).e <= s.dt_max.e))
@@ -453,11 +455,11 @@ def run_update(mutate=None, screening=False, dynamic=False, prefixes=("C",)):
         check("C05.record.dt_recorded_once_and_is_dt_used", z3.And(z3.BoolVal(len(dts) == 1), sym.eq(dts[0], dt_out) if dts else z3.BoolVal(False)))
         if screening:
             check("C13.exit_only_converged", z3.And(IND["err"].e < tol.e) if IND["err"] is not None else z3.BoolVal(False))
-            check("C13.returns_last_iterate", z3.BoolVal(A_out is IND["last"]))
+            check_same("C13.returns_last_iterate", [(A_out, IND["last"])])
             its = [v for (n_, v) in rs.log if n_ == "screening_iterations"]
             check("C05.record.screening_iterations_recorded_once", z3.BoolVal(len(its) == 1))
         else:
-            check("C13.off_returns_input_potential", z3.BoolVal(A_out is A_ind_in and IND["n"] == 0))
+            check_same("C13.off_returns_input_potential", [(A_out, A_ind_in)], also=IND["n"] == 0)
             check("C13.off_single_pass", z3.BoolVal(EUL["n"] == 1 and OBS["n"] == 1))
         if has_probes:
             names = [n_ for (n_, v) in rs.log]
@@ -508,7 +510,7 @@ def run_update(mutate=None, screening=False, dynamic=False, prefixes=("C",)):
         outs = [x for x in res[1:6]]
         check("C11.no_aliasing.outputs_are_fresh_or_inputs", z3.BoolVal(all((x is A_ind_in) or not any(x is y for y in (psi_in, mu_in, js_in, jn_in)) for x in outs)))
         if dynamic:
-            check("C10.reference_potential_advanced", z3.BoolVal(s.current_A_applied is A_now and res[6] is A_now))
+            check_same("C10.reference_potential_advanced", [(s.current_A_applied, A_now), (res[6], A_now)])
 
     obls, n = explore(body)
     return dict(obls=obls, paths=n, sources=[L.info()], consistent=sym.consistent())
